@@ -1,0 +1,31 @@
+//go:build verif
+
+package flow
+
+// VerifSetGenerator registers, through SetTrafficShapingGenerator, a traffic controller generator for a
+// non-default (TokenCalculateStrategy, ControlBehavior) pair. The generator's parameter type
+// (*standaloneStatistic) can not be named outside this package, so the verification harness passes a
+// hook instead: hook(rule) runs first, inside buildResourceTrafficShapingController, and may panic,
+// return an error (the rule is ignored then) or do anything a user-registered generator may do;
+// if it returns nil the controller is built exactly like a Direct + Reject one. Verification builds only.
+func VerifSetGenerator(tcs TokenCalculateStrategy, cb ControlBehavior, hook func(rule *Rule) error) error {
+	return SetTrafficShapingGenerator(tcs, cb, func(rule *Rule, boundStat *standaloneStatistic) (*TrafficShapingController, error) {
+		if err := hook(rule); err != nil {
+			return nil, err
+		}
+		if boundStat == nil {
+			var err error
+			boundStat, err = generateStatFor(rule)
+			if err != nil {
+				return nil, err
+			}
+		}
+		tsc, err := NewTrafficShapingController(rule, boundStat)
+		if err != nil || tsc == nil {
+			return nil, err
+		}
+		tsc.flowCalculator = NewDirectTrafficShapingCalculator(tsc, rule.Threshold)
+		tsc.flowChecker = NewRejectTrafficShapingChecker(tsc, rule)
+		return tsc, nil
+	})
+}
